@@ -325,6 +325,7 @@ fn trigger_handler(
                     ExoticObject::Function(JsFunction::PromiseAllFulfill { .. })
                         | ExoticObject::Function(JsFunction::PromiseAllReject(_))
                         | ExoticObject::Function(JsFunction::PromiseAllSettledSettle { .. })
+                        | ExoticObject::Function(JsFunction::PromiseAnySettle { .. })
                 )
             } else {
                 false
@@ -1178,6 +1179,56 @@ pub fn promise_allsettled(
     Ok(Guarded::with_guard(JsValue::Object(result_promise), guard))
 }
 
+/// Handle Promise.any settle - called when one of the pending input promises settles
+pub fn handle_promise_any_settle(
+    interp: &mut Interpreter,
+    state: &Rc<PromiseAllSharedState>,
+    index: usize,
+    value: JsValue,
+    is_fulfill: bool,
+) -> Result<(), JsError> {
+    // `rejected` doubles as the "result promise already settled" flag
+    if state.rejected.get() {
+        return Ok(());
+    }
+
+    let result_promise = state.result_promise.cheap_clone();
+
+    if is_fulfill {
+        // First fulfillment wins
+        state.rejected.set(true);
+        return fulfill_promise(interp, &result_promise, value);
+    }
+
+    // Collect the rejection reason at the input's position
+    {
+        let mut errors = state.results.borrow_mut();
+        if let Some(slot) = errors.get_mut(index) {
+            *slot = value;
+        }
+    }
+
+    let remaining = state.remaining.get().saturating_sub(1);
+    state.remaining.set(remaining);
+
+    if remaining == 0 {
+        // Every input has rejected - reject with all reasons in input order
+        state.rejected.set(true);
+        let errors = mem::take(&mut *state.results.borrow_mut());
+        let guard = interp.heap.create_guard();
+        // Out of the shared state nothing traces the reasons until they are array elements
+        for error in &errors {
+            if let JsValue::Object(obj) = error {
+                guard.guard(obj.cheap_clone());
+            }
+        }
+        let errors_arr = interp.create_array_from(&guard, errors);
+        reject_promise(interp, &result_promise, JsValue::Object(errors_arr))?;
+    }
+
+    Ok(())
+}
+
 /// Promise.any(iterable)
 pub fn promise_any(
     interp: &mut Interpreter,
@@ -1198,11 +1249,12 @@ pub fn promise_any(
         return Ok(Guarded::with_guard(JsValue::Object(promise), guard));
     }
 
-    let mut errors: Vec<JsValue> = Vec::new();
+    // Rejection reasons by input position; pending inputs fill their slot later
+    let mut errors: Vec<JsValue> = Vec::with_capacity(promises.len());
     let mut fulfilled_value: Option<JsValue> = None;
-    let mut any_pending = false;
+    let mut pending: Vec<(usize, Gc<JsObject>)> = Vec::new();
 
-    for promise_value in &promises {
+    for (index, promise_value) in promises.iter().enumerate() {
         let (status, result) = if let JsValue::Object(obj) = promise_value {
             let obj_ref = obj.borrow();
             if let ExoticObject::Promise(ref state) = obj_ref.exotic {
@@ -1224,7 +1276,10 @@ pub fn promise_any(
                 errors.push(result.unwrap_or(JsValue::Undefined));
             }
             PromiseStatus::Pending => {
-                any_pending = true;
+                errors.push(JsValue::Undefined);
+                if let JsValue::Object(obj) = promise_value {
+                    pending.push((index, obj.cheap_clone()));
+                }
             }
         }
     }
@@ -1234,13 +1289,56 @@ pub fn promise_any(
         return Ok(Guarded::with_guard(JsValue::Object(promise), guard));
     }
 
-    if !errors.is_empty() && !any_pending {
+    if pending.is_empty() {
         let errors_arr = interp.create_array_from(&guard, errors);
         let promise = create_rejected_promise(interp, &guard, JsValue::Object(errors_arr));
         return Ok(Guarded::with_guard(JsValue::Object(promise), guard));
     }
 
-    // Return pending promise
-    let promise = create_promise(interp, &guard);
-    Ok(Guarded::with_guard(JsValue::Object(promise), guard))
+    // Some inputs are still pending: the first one to fulfill wins, and the result rejects
+    // once the last one has rejected
+    let result_promise = create_promise(interp, &guard);
+
+    let shared_state = Rc::new(PromiseAllSharedState {
+        remaining: Cell::new(pending.len()),
+        results: RefCell::new(errors),
+        result_promise: result_promise.cheap_clone(),
+        rejected: Cell::new(false),
+    });
+
+    for (index, promise_obj) in &pending {
+        let promise_obj_ref = promise_obj.borrow();
+        if let ExoticObject::Promise(ref state) = promise_obj_ref.exotic {
+            let on_fulfilled = interp.create_object(&guard);
+            {
+                let mut f = on_fulfilled.borrow_mut();
+                f.prototype = Some(interp.function_prototype.cheap_clone());
+                f.exotic = ExoticObject::Function(JsFunction::PromiseAnySettle {
+                    state: shared_state.clone(),
+                    index: *index,
+                    is_fulfill: true,
+                });
+            }
+
+            let on_rejected = interp.create_object(&guard);
+            {
+                let mut f = on_rejected.borrow_mut();
+                f.prototype = Some(interp.function_prototype.cheap_clone());
+                f.exotic = ExoticObject::Function(JsFunction::PromiseAnySettle {
+                    state: shared_state.clone(),
+                    index: *index,
+                    is_fulfill: false,
+                });
+            }
+
+            let mut state_mut = state.borrow_mut();
+            state_mut.handlers.push(PromiseHandler {
+                on_fulfilled: Some(JsValue::Object(on_fulfilled)),
+                on_rejected: Some(JsValue::Object(on_rejected)),
+                result_promise: result_promise.cheap_clone(),
+            });
+        }
+    }
+
+    Ok(Guarded::with_guard(JsValue::Object(result_promise), guard))
 }
